@@ -200,6 +200,11 @@ class GroupList(SVal):
             raise Unsupported("append of something else than a reference")
         self.t = z3.Concat(self.t, z3.Unit(r.t))
 
+    def meth_insert(self, cx, i, r):
+        if i != 0 or not isinstance(r, RefTok):
+            raise Unsupported("insert other than at the front")
+        self.t = z3.Concat(z3.Unit(r.t), self.t)
+
     def havoc_inplace(self, cx, hint="gl"):
         self.t = z3.Const(fresh_name(hint), REFS)
 
